@@ -23,7 +23,8 @@ RULE = ('random categorical data sets (1-3 covariates, <= 8 strata, positivity b
         'frame of a bare instance is compared with the documented row filter / observed-outcome indicator.  Cells: IPTW '
         '{missing ignored, missing_model} x standardize (with / without weights), StochasticIPTW, TimeFixedGFormula '
         "predict_missing x standardize x {all, none, custom} without and with weights (the full grid under weights and "
-        "predict_missing=False), SurvivalGFormula, AIPTW, TMLE, StochasticTMLE, GEstimationSNM, the four cross-fit "
+        "predict_missing=False; every predict_missing=False cell also through fit_stochastic with the equivalent "
+        "deterministic plan p = 1 / 0 / conditional [1, 0]), SurvivalGFormula, AIPTW, TMLE, StochasticTMLE, GEstimationSNM, the four cross-fit "
         'estimators (GLM learner); TMLE / AIPTW / StochasticTMLE also with user-supplied learners (custom_model=: an '
         'exact stratum-mean learner, sklearn-classifier style with predict_proba, or predict only) for the treatment, '
         'missingness and outcome models, in two doubly-robust layouts (outcome model coarsened, or treatment + '
@@ -404,6 +405,13 @@ def cells(which, ytype, has_ymiss, covs, rng, tier):
             for tgt, tr in grid:
                 out.append(dict(tgt=tgt, treatment=tr, pm=pm, spec='main' if tr == custom else 'sat', ytype=ytype,
                                 w='w'))
+        # the stochastic entry point with deterministic plans (p = 1 / 0 / conditional [1, 0]) is the same intervention:
+        # every predict_missing=False cell also through fit_stochastic, a third of the others
+        for o in list(out):
+            if not o['pm']:
+                out.append(dict(o, stoch=True))
+            elif rng.integers(0, 3) == 0:
+                o['stoch'] = True
     elif which == 'AIPTW':
         for mm in modes:
             out.append(dict(miss=mm, spec=spec(), ytype=ytype, w=[None, 'w'][int(rng.integers(0, 2))]))
@@ -636,7 +644,7 @@ def one_dataset(chk, drv, rng, ytype, ymiss, xmiss, tier, classes, only=None, se
             key = (seed, which, tuple(sorted((k, str(v)) for k, v in o.items())))
             chk.case(case, key if (n_inc > 0 or shifts) else None, sample=case if chk.evals % 37 == 0 else None)
             chk.count('%s/%s' % (which, '/'.join('%s=%s' % (k, v) for k, v in sorted(o.items())
-                                                 if k in ('miss', 'tgt', 'pm', 'snm', 'cb', 'w', 'custom', 'hist'))))
+                                                 if k in ('miss', 'tgt', 'pm', 'snm', 'cb', 'w', 'custom', 'hist', 'stoch'))))
             st, val = attempt(one_case, chk, drv, which, o, df, covs, dele, cc, cfs, ytype, case)
             if st == 'err':
                 import traceback
